@@ -337,6 +337,22 @@ func Check(c *core.Ctx, pool *gjs.Pool, cfg Config) {
 		}
 		progs = keep
 	}
+	// Go leaves the order between reading a variable and calling a function in the same
+	// expression open: a random program of version 1 in which an operand reads x directly
+	// and a later operand calls a closure that writes x has no defined outcome
+	skipped := 0
+	{
+		var keep []*Program
+		for _, p := range progs {
+			if readBeforeWritingCall(p) {
+				skipped++
+				continue
+			}
+			keep = append(keep, p)
+		}
+		progs = keep
+	}
+	c.Set("programs_skipped_unspecified_read_call_order", skipped)
 	var pj []any
 	for _, p := range progs {
 		p.Normalise()
@@ -471,6 +487,9 @@ func Check(c *core.Ctx, pool *gjs.Pool, cfg Config) {
 						natOK[[2]int{n, ci}] = true
 					} else {
 						discards[bi]++
+						if os.Getenv("VERIF_VERBOSE") != "" {
+							fmt.Printf("  spec guard discard: %s %s input %v: native %v, spec %v\n    %s\n", pt.p.Tag, pt.p.Desc, cs.iv, clip(sec[[2]int{n, ci}]), clip(cs.want), pt.js)
+						}
 					}
 				}
 			}
@@ -772,6 +791,79 @@ func (ci *callInfo) mixedOrder(e []any) bool {
 		}
 	}
 	return false
+}
+
+// bareReads collects the variables an expression reads outside the arguments of a call.
+func bareReads(e []any, into map[string]bool) {
+	if len(e) == 0 {
+		return
+	}
+	if k, ok := e[0].(string); ok {
+		switch k {
+		case "var":
+			into[e[1].(string)] = true
+			return
+		case "tr", "trb", "call", "callsp", "callv", "callf", "mcall":
+			return // evaluated before that call, which is ordered with the other calls
+		}
+	}
+	for _, x := range e {
+		if sub, ok := x.([]any); ok {
+			bareReads(sub, into)
+		}
+	}
+}
+
+// readBeforeWritingCall: an operand list (binary operator, call arguments) in which an
+// earlier operand reads a variable directly and a later operand calls a closure
+// (closure statement of version 1) that assigns it.
+func readBeforeWritingCall(p *Program) bool {
+	writes := map[string]map[string]bool{} // closure variable -> variables it assigns
+	for _, f := range p.Funcs {
+		walk(nodes(f.Body), func(n []any) {
+			if n[0] == "closure" {
+				w := map[string]bool{}
+				walk(n[2].([]any), func(m []any) {
+					switch m[0] {
+					case "assign", "addto", "inc":
+						w[m[1].(string)] = true
+					}
+				})
+				writes[n[1].(string)] = w
+			}
+		})
+	}
+	if len(writes) == 0 {
+		return false
+	}
+	found := false
+	for _, f := range p.Funcs {
+		walk(nodes(f.Body), func(n []any) {
+			var ops []any
+			switch n[0] {
+			case "add", "sub", "mul", "lt", "eq":
+				ops = []any{n[1], n[2]}
+			case "call":
+				ops = n[2].([]any)
+			}
+			for i := 0; i < len(ops) && !found; i++ {
+				reads := map[string]bool{}
+				bareReads(ops[i].([]any), reads)
+				for j := i + 1; j < len(ops); j++ {
+					walk(ops[j].([]any), func(m []any) {
+						if m[0] == "callv" {
+							for x := range writes[m[1].(string)] {
+								if reads[x] {
+									found = true
+								}
+							}
+						}
+					})
+				}
+			}
+		})
+	}
+	return found
 }
 
 // walk calls f on every node (a tuple whose first element is its kind) of the tree.
